@@ -38,7 +38,9 @@ pub enum Target {
 /// than the ids of the argument locals the call creates
 /// "bulk": the new body uses memory.init / data.drop on the module's (active) data segment, which
 /// the input - and its lack of a data-count section - did not
-pub const BODIES: [&str; 7] = ["const", "arg", "call-other", "global", "unreachable", "scratch", "bulk"];
+/// "loop": the new body iterates; the loop is put in front of an instruction that is already there
+/// with the positional `loop_at`, and its back edge is a `br_if` to the loop itself
+pub const BODIES: [&str; 8] = ["const", "arg", "call-other", "global", "unreachable", "scratch", "bulk", "loop"];
 
 /// WAT of the module. `replaced`: None = original; Some((target, body, which_export)) = expected
 fn wat(v: &Variant, replaced: Option<(Target, usize, usize)>) -> String {
@@ -50,6 +52,7 @@ fn wat(v: &Variant, replaced: Option<(Target, usize, usize)>) -> String {
             3 => "(global.set $g (local.get 0)) (global.get $g)".into(),
             5 => "(local i32) (local.set 1 (i32.add (local.get 0) (i32.const 1))) (i32.add (local.get 1) (local.get 0))".into(),
             6 => "(memory.init $d (i32.const 8) (i32.const 0) (i32.const 0)) (data.drop $d) (local.get 0)".into(),
+            7 => "(loop $l (local.set 0 (i32.shr_u (local.get 0) (i32.const 1))) (br_if $l (local.get 0))) (local.get 0)".into(),
             _ => "(unreachable)".into(),
         }
     };
@@ -60,6 +63,7 @@ fn wat(v: &Variant, replaced: Option<(Target, usize, usize)>) -> String {
             3 => "(global.set $g (i32.const 5))".into(),
             5 => "(local i32) (local.set 0 (i32.const 3)) (global.set $g (local.get 0))".into(),
             6 => "(data.drop $d)".into(),
+            7 => "(loop $l (global.set $g (i32.shr_u (global.get $g) (i32.const 1))) (br_if $l (global.get $g)))".into(),
             _ => "(unreachable)".into(),
         }
     };
@@ -192,6 +196,14 @@ fn edit(orig: &[u8], v: &Variant, target: Target, body: usize) -> Result<Vec<u8>
                     6 => {
                         b.i32_const(8).i32_const(0).i32_const(0).memory_init(mem, dat).data_drop(dat).local_get(args[0]);
                     }
+                    7 => {
+                        let a = args[0];
+                        b.local_get(a);
+                        b.loop_at(0, None, |l| {
+                            let me = l.id();
+                            l.local_get(a).i32_const(1).binop(walrus::ir::BinaryOp::I32ShrU).local_set(a).local_get(a).br_if(me);
+                        });
+                    }
                     _ => {
                         b.unreachable();
                     }
@@ -214,6 +226,12 @@ fn edit(orig: &[u8], v: &Variant, target: Target, body: usize) -> Result<Vec<u8>
                     }
                     6 => {
                         b.data_drop(dat);
+                    }
+                    7 => {
+                        b.loop_at(0, None, |l| {
+                            let me = l.id();
+                            l.global_get(g).i32_const(1).binop(walrus::ir::BinaryOp::I32ShrU).global_set(g).global_get(g).br_if(me);
+                        });
                     }
                     _ => {
                         b.unreachable();
@@ -241,6 +259,14 @@ fn edit(orig: &[u8], v: &Variant, target: Target, body: usize) -> Result<Vec<u8>
                     }
                     6 => {
                         b.i32_const(8).i32_const(0).i32_const(0).memory_init(mem, dat).data_drop(dat).local_get(args[0]);
+                    }
+                    7 => {
+                        let a = args[0];
+                        b.local_get(a);
+                        b.loop_at(0, None, |l| {
+                            let me = l.id();
+                            l.local_get(a).i32_const(1).binop(walrus::ir::BinaryOp::I32ShrU).local_set(a).local_get(a).br_if(me);
+                        });
                     }
                     _ => {
                         b.unreachable();
@@ -309,7 +335,7 @@ pub fn plan() -> Vec<Planned> {
             targets.push(Target::ImportS);
         }
         for t in targets {
-            for body in 0..7 {
+            for body in 0..8 {
                 if t == Target::ImportS && body == 1 {
                     continue;
                 }
